@@ -206,6 +206,10 @@ def _canon(e):
     t = e[0]
     if t in ("num", "str", "none", "bool", "nan", "inf", "param", "opaque", "res", "lc", "rat", "class", "func", "impl"):
         return e
+    if t == "starred" and len(e) == 2 and isinstance(e[1], tuple) and e[1] and e[1][0] == "tuple":
+        return ("starred", canon(("list",) + tuple(e[1][1:])))  # *(a, b) passes what *[a, b] passes
+    if t == "+" and len(e) == 3 and all(isinstance(x, tuple) and x and x[0] == "list" for x in e[1:]):
+        return canon(("list",) + tuple(e[1][1:]) + tuple(e[2][1:]))  # [a] + [b, c] is [a, b, c]
     if t in ARITH or t == "pos":
         return to_rat(e).canon()
     if t == "call":
@@ -252,6 +256,10 @@ def _canon(e):
                 return ("call", "pd.DataFrame", (), tuple(sorted((k, canon(v)) for k, v in kwd.items())))
         if f == "set.union" and len(args) == 2 and not kw:
             return canon(("|", args[0], args[1]))  # the union of two sets
+        if f == "set" and len(args) == 1 and not kw and isinstance(args[0], tuple) and len(args[0]) == 3 and args[0][0] == "+":
+            return canon(("|", ("call", "set", (args[0][1],), ()), ("call", "set", (args[0][2],), ())))  # set(a + b) is set(a) | set(b)
+        if f == "set" and len(args) == 1 and not kw and _dict_iter(args[0]) is not None and _dict_iter(args[0])[0] == "keys":
+            return ("call", "set", (("dictiter", canon(_dict_iter(args[0])[1])),), ())  # the set of a dict / of its keys()
         if f in ("list", "tuple", "set", "sorted", "frozenset") and len(args) == 1 and not kw:
             a = _strip_snapshot(args[0]) if f in ("list", "tuple") else _strip_snapshot(args[0], calls=())  # the elements of a copy of xs are the elements of xs
             if a is not args[0]:
